@@ -207,70 +207,91 @@ def quoted (q : Char) (greedy : Bool) (cs : List Char) : Option (List Char × Li
   | some i => some (cs.take i, cs.drop (i + 1))
   | none => none
 
+/-- blank, tab, newline: skipped between tokens -/
+def isWs (c : Char) : Bool := c == ' ' || c == '\t' || c == '\n'
+/-- `#…` and `//…` comments -/
+def isLineComment (c : Char) (cs : List Char) : Bool := c == '#' || (c == '/' && cs.head? == some '/')
+/-- a terminated `/* … */` comment -/
+def isBlockComment (c : Char) (cs : List Char) : Bool :=
+  c == '/' && cs.head? == some '*' && (splitAt? ['*', '/'] (cs.drop 1)).isSome
+/-- INT_SIZE: one of w/h/b with the look-behind `(\d|[0-9a-fA-F])\.` (p1 = previous character, p2 = the one before) -/
+def isSizeAt (c : Char) (p1 p2 : Option Char) : Bool :=
+  (c == 'w' || c == 'h' || c == 'b') && p1 == some '.' && (match p2 with | some d => isHexDigit d | none => false)
+def sizeOfChar (c : Char) : IntSz := if c == 'w' then .w else if c == 'h' then .h else .b
+def isSectionNameChar (d : Char) : Bool := isIdChar d || ".*?-^[]".toList.contains d
+/-- previous two characters after `consumed` has been read -/
+def prevAfter (consumed : List Char) (p1 p2 : Option Char) : Option Char × Option Char :=
+  let l := consumed.length
+  (if l ≥ 1 then consumed[l - 1]? else p1,
+   if l ≥ 2 then consumed[l - 2]? else if l == 1 then p1 else p2)
+/-- token of an identifier-shaped word -/
+def wordTok (sources : List String) (w : String) : Tok :=
+  match BdGrammar.reserved.find? (fun p => p.1 == w) with
+  | some p =>
+    if p.2 == "TRUE" || p.2 == "YES" then .num 1
+    else if p.2 == "FALSE" || p.2 == "NO" then .num 0
+    else if p.2 == "DEFINED" then .defined
+    else .kw p.2
+  | none => if sources.contains w then .source w else .ident w
+
 def lexAux (sources : List String) : Nat → List Char → Option Char → Option Char → List Tok → Except LexErr (List Tok)
   | 0, _, _, _, acc => .ok acc.reverse
   | _, [], _, _, acc => .ok acc.reverse
   | fuel + 1, c :: cs, p1, p2, acc =>
     -- p1 = previous character, p2 = the one before
-    let next (consumed : List Char) (rest : List Char) (acc' : List Tok) :=
-      let l := consumed.length
-      let q1 := if l ≥ 1 then consumed[l - 1]? else p1
-      let q2 := if l ≥ 2 then consumed[l - 2]? else if l == 1 then p1 else p2
-      lexAux sources fuel rest q1 q2 acc'
-    if c == ' ' || c == '\t' || c == '\n' then next [c] cs acc
+    if isWs c then lexAux sources fuel cs (some c) p1 acc
     -- COMMENT
-    else if c == '#' || (c == '/' && cs.head? == some '/') then
+    else if isLineComment c cs then
       let body := (c :: cs).takeWhile (· != '\n')
-      next body ((c :: cs).drop body.length) acc
-    else if c == '/' && cs.head? == some '*' && (splitAt? ['*', '/'] (cs.drop 1)).isSome then
+      lexAux sources fuel ((c :: cs).drop body.length) (prevAfter body p1 p2).1 (prevAfter body p1 p2).2 acc
+    else if isBlockComment c cs then
       match splitAt? ['*', '/'] (cs.drop 1) with
-      | some (a, b) => next (c :: '*' :: a ++ ['*', '/']) b acc
+      | some (a, b) =>
+        lexAux sources fuel b (prevAfter (c :: '*' :: a ++ ['*', '/']) p1 p2).1 (prevAfter (c :: '*' :: a ++ ['*', '/']) p1 p2).2 acc
       | none => .ok acc.reverse
     -- INT_SIZE: look-behind `(\d|[0-9a-fA-F])\.` then one of w/h/b
-    else if (c == 'w' || c == 'h' || c == 'b') && p1 == some '.' && (match p2 with | some d => isHexDigit d | none => false) then
-      next [c] cs (.isize (if c == 'w' then .w else if c == 'h' then .h else .b) :: acc)
+    else if isSizeAt c p1 p2 then lexAux sources fuel cs (some c) p1 (.isize (sizeOfChar c) :: acc)
     -- IDENT / keywords / source names
     else if isIdStart c then
       let word := (c :: cs).takeWhile isIdChar
-      let rest := (c :: cs).drop word.length
-      let w := String.ofList word
-      let tok : Tok :=
-        match BdGrammar.reserved.find? (fun p => p.1 == w) with
-        | some p =>
-          if p.2 == "TRUE" || p.2 == "YES" then .num 1
-          else if p.2 == "FALSE" || p.2 == "NO" then .num 0
-          else if p.2 == "DEFINED" then .defined
-          else .kw p.2
-        | none => if sources.contains w then .source w else .ident w
-      next word rest (tok :: acc)
+      lexAux sources fuel ((c :: cs).drop word.length) (prevAfter word p1 p2).1 (prevAfter word p1 p2).2
+        (wordTok sources (String.ofList word) :: acc)
     -- INT_LITERAL
     else if c.isDigit then
       -- `\b` before the number: the previous character must not be a word character
-      if (match p1 with | some d => isIdChar d | none => false) then next [c] cs (.other "ERROR" :: acc)
+      if (match p1 with | some d => isIdChar d | none => false) then lexAux sources fuel cs (some c) p1 (.other "ERROR" :: acc)
       else match lexNumber (c :: cs) with
-        | some (.ok n, rest) => next ((c :: cs).take ((c :: cs).length - rest.length)) rest (.num n :: acc)
+        | some (.ok n, rest) =>
+          lexAux sources fuel rest (prevAfter ((c :: cs).take ((c :: cs).length - rest.length)) p1 p2).1
+            (prevAfter ((c :: cs).take ((c :: cs).length - rest.length)) p1 p2).2 (.num n :: acc)
         | some (.error e, _) => .error e
-        | none => next [c] cs (.other "ERROR" :: acc)
+        | none => lexAux sources fuel cs (some c) p1 (.other "ERROR" :: acc)
     else if c == '\'' then
       match quoted '\'' (!nonGreedyChars) cs with
       | some (body, rest) =>
         if body.isEmpty then .error .value
         else
           let bytes := (String.ofList body).toUTF8.toList
-          next ('\'' :: body ++ ['\'']) rest (.num (bytes.foldl (fun acc b => acc * 256 + b.toNat) 0) :: acc)
-      | none => next [c] cs (.other "ERROR" :: acc)
+          lexAux sources fuel rest (prevAfter ('\'' :: body ++ ['\'']) p1 p2).1 (prevAfter ('\'' :: body ++ ['\'']) p1 p2).2
+            (.num (bytes.foldl (fun acc b => acc * 256 + b.toNat) 0) :: acc)
+      | none => lexAux sources fuel cs (some c) p1 (.other "ERROR" :: acc)
     -- SECTION_NAME `\$[\w\.\*\?\-\^\[\]]+`
-    else if c == '$' && (match cs with | d :: _ => isIdChar d || ".*?-^[]".toList.contains d | [] => false) then
-      let body := cs.takeWhile (fun d => isIdChar d || ".*?-^[]".toList.contains d)
-      next (c :: body) (cs.drop body.length) (.other "SECTION_NAME" :: acc)
+    else if c == '$' && (match cs with | d :: _ => isSectionNameChar d | [] => false) then
+      let body := cs.takeWhile isSectionNameChar
+      lexAux sources fuel (cs.drop body.length) (prevAfter (c :: body) p1 p2).1 (prevAfter (c :: body) p1 p2).2
+        (.other "SECTION_NAME" :: acc)
     -- BINARY_BLOB `\{\{([0-9a-fA-F]{2}| )+\}\}` is not needed inside expressions: `{` is an `other` token
     else if c == '"' then
       match quoted '"' (!nonGreedyQuotes) cs with
-      | some (body, rest) => next ('"' :: body ++ ['"']) rest (.str (String.ofList body) :: acc)
-      | none => next [c] cs (.other "ERROR" :: acc)
+      | some (body, rest) =>
+        lexAux sources fuel rest (prevAfter ('"' :: body ++ ['"']) p1 p2).1 (prevAfter ('"' :: body ++ ['"']) p1 p2).2
+          (.str (String.ofList body) :: acc)
+      | none => lexAux sources fuel cs (some c) p1 (.other "ERROR" :: acc)
     else match matchSimple (c :: cs) with
-      | some (name, len) => next ((c :: cs).take len) ((c :: cs).drop len) (simpleTok name :: acc)
-      | none => next [c] cs (.other "ERROR" :: acc)
+      | some (name, len) =>
+        lexAux sources fuel ((c :: cs).drop len) (prevAfter ((c :: cs).take len) p1 p2).1 (prevAfter ((c :: cs).take len) p1 p2).2
+          (simpleTok name :: acc)
+      | none => lexAux sources fuel cs (some c) p1 (.other "ERROR" :: acc)
 
 /-- tokens of an expression text; `sources` = identifiers defined in `sources` blocks so far -/
 def lex (sources : List String) (s : String) : Except LexErr (List Tok) :=
@@ -471,38 +492,85 @@ def posAction (a : Int) : PyRes Int := BdGrammar.unaryRule (tokText "PLUS") a
 def cmpAction (o : CmpOp) (a b : Int) : PyRes Int := BdGrammar.boolRule o.text a b
 def lnotAction (a : Int) : PyRes Int := BdGrammar.lnotRule a
 
-/-- operations on a `str` operand are outside the model (Python would concatenate, repeat, compare … strings) -/
+/-! Operands that are Python `str`s (an undefined identifier evaluates to its own name, a string option to its text):
+    hand model of Python's operators on them.  `+` concatenates two strs, `*` repeats a str, `&&`/`||`/`!` use truthiness
+    (non-empty), `==`/`!=` compare any two values, `<`… compare two strs by code points; everything else raises TypeError.
+    Not modelled: `%` with a str on the left that contains `%` (string formatting), repetition counts above 2^16. -/
+
 def asInt : Val → PyRes Int
   | .int i => .ok i
   | .sym _ => .error .other
+
+def truthyV : Val → Bool
+  | .int i => i != 0
+  | .sym s => s != ""
+
+def strRepeat (s : String) (n : Int) : String := String.join (List.replicate n.toNat s)
+
+def binVal (o : BinOp) : Val → Val → PyRes Val
+  | .int x, .int y => match opAction o x y with | .ok z => .ok (.int z) | .error e => .error e
+  | .sym a, .sym b => match o with | .add => .ok (.sym (a ++ b)) | _ => .error .other
+  | .sym a, .int n => match o with
+    | .mul => if n > 65536 then .error .other else .ok (.sym (strRepeat a n))
+    | _ => .error .other
+  | .int n, .sym a => match o with
+    | .mul => if n > 65536 then .error .other else .ok (.sym (strRepeat a n))
+    | _ => .error .other
+
+def cmpVal (o : CmpOp) : Val → Val → PyRes Val
+  | .int x, .int y => match cmpAction o x y with | .ok z => .ok (.int z) | .error e => .error e
+  | a, b =>
+    match o with
+    | .land => .ok (if truthyV a then b else a)
+    | .lor => .ok (if truthyV a then a else b)
+    | .eq => .ok (.int (pyBoolInt (a == b)))
+    | .ne => .ok (.int (pyBoolInt (a != b)))
+    | _ =>
+      match a, b with
+      | .sym x, .sym y =>
+        .ok (.int (pyBoolInt (match o with
+          | .lt => decide (x < y) | .le => decide (x ≤ y) | .gt => decide (y < x) | _ => decide (y ≤ x))))
+      | _, _ => .error .other
+
+def unaryVal (neg : Bool) : Val → PyRes Val
+  | .int x => match (if neg then negAction x else posAction x) with | .ok z => .ok (.int z) | .error e => .error e
+  | .sym _ => .error .other
+
+def sizeVal (s : IntSz) : Val → PyRes Val
+  | .int x => match sizeAction s x with | .ok z => .ok (.int z) | .error e => .error e
+  | .sym _ => .error .other
+
+def lnotVal : Val → PyRes Val
+  | .int x => match lnotAction x with | .ok z => .ok (.int z) | .error e => .error e
+  | .sym s => .ok (.int (pyBoolInt (s == "")))
 
 def eval (vars : Vars) : Expr → PyRes Val
   | .lit n => .ok (.int n)
   | .var x => .ok (lookupVar vars x)
   | .bin o l r =>
     match eval vars l, eval vars r with
-    | .ok a, .ok b => (do let x ← asInt a; let y ← asInt b; let z ← opAction o x y; pure (.int z))
+    | .ok a, .ok b => binVal o a b
     | .error e, _ => .error e
     | _, .error e => .error e
   | .neg e => match eval vars e with
-    | .ok a => (do let x ← asInt a; let z ← negAction x; pure (.int z))
+    | .ok a => unaryVal true a
     | .error e => .error e
   | .pos e => match eval vars e with
-    | .ok a => (do let x ← asInt a; let z ← posAction x; pure (.int z))
+    | .ok a => unaryVal false a
     | .error e => .error e
   | .size s e => match eval vars e with
-    | .ok a => (do let x ← asInt a; let z ← sizeAction s x; pure (.int z))
+    | .ok a => sizeVal s a
     | .error e => .error e
 
 def evalB (vars : Vars) : BExpr → PyRes Val
   | .atom e => eval vars e
   | .bin o l r =>
     match evalB vars l, evalB vars r with
-    | .ok a, .ok b => (do let x ← asInt a; let y ← asInt b; let z ← cmpAction o x y; pure (.int z))
+    | .ok a, .ok b => cmpVal o a b
     | .error e, _ => .error e
     | _, .error e => .error e
   | .lnot b => match evalB vars b with
-    | .ok a => (do let x ← asInt a; let z ← lnotAction x; pure (.int z))
+    | .ok a => lnotVal a
     | .error e => .error e
   | .defined x => .ok (.int (pyBoolInt (BdGrammar.definedRule (vars.map (·.1)) x)))
 
